@@ -41,9 +41,21 @@ class SetMutator(CollectionAttrMutator):
             raise ValueError(
                 f"Attempted to add an invalid item `{repr(item)}` to `{self.attr_spec.qualified_name}`. Expected item of type `{type_label(self.attr_spec.item_type)}`."
             )
-        if index is not MISSING and replace:
+        if index is not MISSING and replace and index in self.collection:
+            old_items = list(self.collection)
             self.collection.discard(index)
-        self.collection.add(item)
+            try:
+                self.collection.add(item)
+            except Exception:
+                # The incoming item was refused (e.g. by a `KeyedSet` enforcing
+                # item equivalence), so restore the item we removed (and the
+                # iteration order of ordered sets).
+                self.collection.clear()
+                for old_item in old_items:
+                    self.collection.add(old_item)
+                raise
+        else:
+            self.collection.add(item)
 
     def add_item(self, item, *, value_or_index=MISSING, replace=True, attrs=None):  # pylint: disable=arguments-differ
         return self._mutate_collection(
